@@ -160,8 +160,21 @@ def _obj(**kw):
     """yaw=k is the old spelling (`facing 90k deg`); ori=(yawspec, pitchspec, rollspec) gives the
     pose through `with yaw/pitch/roll` (constants, discrete Uniform, Range over lattice angles)"""
     o = dict(fixed=False, pos=[0, 0, 0], base=[], poly=True, off=[0, 0], sizes=[[Q, Q, Q]], yaw=0,
-             facing=False, vis="none", vd=50 * Q, mode="in", wdist=None, ldist=None, ori=None)
+             facing=False, vis="none", vd=50 * Q, mode="in", wdist=None, ldist=None, ori=None,
+             devspec=None, lift=0)
     o.update(kw)
+    # heading deviation (degrees) added to the field heading: ("range", a, b) | ("uniform", [a, b..]);
+    # witnesses of a Range are interior values (two degrees inside), of a Uniform its values
+    d = o["devspec"]
+    if d is None:
+        o["dev"], o["devs"] = [0, 0], [0]
+    elif d[0] == "range":
+        a, b = d[1], d[2]
+        o["dev"] = [a, b]
+        o["devs"] = sorted({a + 2, (a + b) // 2, b - 2} | ({0} if a < 0 < b else set()))
+    else:
+        o["dev"], o["devs"] = [min(d[1]), max(d[1])], sorted(d[1])
+    o["onz"] = o["mode"] == "on"
     if o["ori"]:
         o["yaws"], o["pitches"], o["rolls"] = (_angles(a) for a in o["ori"])
     else:
@@ -219,10 +232,20 @@ def program_text(p):
         if o["mode"] == "on":
             cls = f"T{k}"
             L.append(f"class {cls}(Object):")
-            L.append(f"    baseOffset: ({_u(-o['off'][0])}, {_u(-o['off'][1])}, -self.height/2)")
+            lift = f" - {_u(o['lift'])}" if o["lift"] else ""
+            L.append(f"    baseOffset: ({_u(-o['off'][0])}, {_u(-o['off'][1])}, -self.height/2{lift})")
+        elif o["devspec"]:
+            cls = f"D{k}"
+            L.append(f"class {cls}(Object):")
+            L.append("    yaw: (vf at self.position).yaw + self.deviation")
+            L.append("    deviation: 0")
         L.append(f"base{k} = {_union_text(o['base'], o['poly'])}")
         spec = [f"new {cls} {o['mode']} base{k}", _size_text(o)]
-        if o["facing"]:
+        if o["devspec"]:
+            d = o["devspec"]
+            spec.append(f"with deviation Range({d[1]}, {d[2]}) deg" if d[0] == "range"
+                        else "with deviation Uniform(" + ", ".join(f"{v} deg" for v in d[1]) + ")")
+        elif o["facing"]:
             spec.append("facing vf")
         elif o["ori"]:
             for nm_, a in zip(("yaw", "pitch", "roll"), o["ori"]):
@@ -237,6 +260,8 @@ def program_text(p):
             spec.append("with requireVisible True")
         elif o["vis"] == "visible":
             spec.append("visible")
+        elif o["vis"] == "visibleFrom":
+            spec.append("visible from ego")
         L.append(f"{nm} = " + ", ".join(spec))
     for i, r in enumerate(p["reqs"]):
         t = shape_text(r, "other", "ego", scale=True)
@@ -255,7 +280,8 @@ def to_tla(p):
     """The JSON given to TLC: drop the printer-only fields."""
     q = dict(id=p["id"], fam=p["fam"], cont=p["cont"], field=p["field"],
              reqs=[dict(q=r["q"], form=r["form"], ops=r["ops"], cs=r["cs"], kind=r["kind"]) for r in p["reqs"]],
-             objs=[{k: o[k] for k in ("fixed", "pos", "base", "poly", "off", "sizes", "yaws", "pitches", "rolls", "facing", "vis", "vd")}
+             objs=[{k: o[k] for k in ("fixed", "pos", "base", "poly", "off", "sizes", "yaws", "pitches", "rolls", "facing", "vis", "vd",
+                                      "dev", "devs", "onz", "lift")}
                    for o in p["objs"]])
     return q
 
@@ -357,6 +383,71 @@ def gen_vis(rnd, pid, tier="quick"):
     foo = _obj(base=base, sizes=[[s, rnd.choice([s, Q]), rnd.choice([Q, s])]], vis=rnd.choice(["requireVisible", "visible"]),
                yaw=rnd.choice([0, 1]))
     return dict(id=pid, fam="vis", objs=[ego, foo], cont=cont, field=[], reqs=[])
+
+
+def gen_vis_tall(rnd, pid):
+    """visibility pruning of an object placed ON a polygon (its centre is half its height, plus a
+    lift, above the sampled base point) seen by a fixed observer above or below the polygon's
+    plane with a small view distance: satisfiable but tight"""
+    sz = rnd.choice([[Q, Q, 6 * Q], [Q, Q, 4 * Q], [2 * Q, 2 * Q, 4 * Q], [2 * Q, Q, 3 * Q], [2 * Q, 2 * Q, Q]])
+    below = rnd.random() < 0.3
+    lift = rnd.choice([0, 0, Q, 2 * Q]) if not below else -sz[2] - rnd.choice([0, Q])
+    top, bottom = sz[2] + lift, lift
+    vd = rnd.choice([4, 6, 8])
+    gap = rnd.choice([1, 2, 3])                      # vertical clearance eye - object, quarter units
+    ez = top + gap if not below else bottom - gap
+    ex, ey = rnd.choice([-1, 0, 1]) * Q, rnd.choice([0, 1]) * Q
+    ego = _obj(fixed=True, pos=[ex, ey, ez], vd=max(vd, gap + 2))
+    R = rnd.choice([5, 6])
+    base = [pbox(-R, -R, R, rnd.choice([3, R]))]
+    cont = [] if rnd.random() < 0.6 else [pbox(-R - 1, -R - 1, R + 1, R + 1)]
+    off = rnd.choice([(0, 0), (0, 0), (2, 0), (0, -2)])
+    foo = _obj(base=base, mode="on", off=list(off), lift=lift, sizes=[sz],
+               vis=rnd.choice(["requireVisible", "requireVisible", "visible", "visibleFrom"]))
+    return dict(id=pid, fam="vis", objs=[ego, foo], cont=cont, field=[], reqs=[], nscenes_cap=4)
+
+
+DEV_SPECS = [("range", -10, 10), ("range", 0, 20), ("range", -20, 0), ("range", -15, 5),
+             ("uniform", [-10, 10]), ("uniform", [-5, 0, 5]), ("uniform", [0, 15])]
+WRAP_HEADS = [170, 175, -175, 180, -170]
+DEV_RH = [(-100, -70), (70, 100), (-110, -80), (80, 110), (160, 180), (-180, -165), (-20, 20), (150, 175), (-10, 35)]
+
+
+def gen_rh_dev(rnd, pid):
+    """relative heading with headings = field heading + bounded random deviation (Range / Uniform),
+    cells near +-180 degrees so that heading +- deviation crosses the cut, one or both objects
+    deviating, required intervals some of which end at the cut themselves"""
+    n = rnd.choice([3, 3, 4])
+    s = 2
+    x = 0
+    field = []
+    for i in range(n):
+        h = rnd.choice(WRAP_HEADS) if (i == 0 or rnd.random() < 0.35) else rnd.choice([90, 0, -90, 85, -95])
+        field.append([pbox(x, 0, x + s, s), h])
+        x += s + rnd.choice([1, 2, 3])
+    rnd.shuffle(field)
+    xs = sorted(f[0][0] for f in field)
+    for f, x0 in zip(field, xs):                      # headings shuffled over the positions
+        f[0] = pbox(x0 // Q, 0, x0 // Q + s, s)
+    cells = [f[0] for f in field]
+    de = rnd.choice(DEV_SPECS)
+    do = rnd.choice(DEV_SPECS + [None, None, None])
+    if rnd.random() < 0.25:
+        de, do = do, de
+    ego = _obj(base=[list(c) for c in cells], facing=True, devspec=de)
+    other = _obj(base=[list(c) for c in cells], facing=True, devspec=do)
+    lo, hi = rnd.choice(DEV_RH)
+    form = rnd.choice(["cQc", "cQc", "absQmk_c", "Qc", "cQ"])
+    if form == "cQc":
+        r = _req("rh", "cQc", [rnd.choice(["le", "lt"]), rnd.choice(["le", "lt"])], [lo, hi])
+    elif form == "absQmk_c":
+        r = _req("rh", "absQmk_c", [rnd.choice(["le", "lt"])], [(hi - lo) // 2, (hi + lo) // 2])
+    elif form == "Qc":
+        r = _req("rh", "Qc", [rnd.choice(["le", "ge"])], [rnd.choice([lo, hi])])
+    else:
+        r = _req("rh", "cQ", [rnd.choice(["le", "ge"])], [rnd.choice([lo, hi])])
+    d = _req("dist", "Qc", ["le"], [rnd.choice([4, 6, 9, 14]) * Q])
+    return dict(id=pid, fam="rh", objs=[ego, other], cont=[], field=field, reqs=[r, d])
 
 
 RH_CONSTS = [-170, -135, -100, -80, -45, -30, 10, 30, 45, 60, 80, 100, 135, 170]
@@ -530,6 +621,35 @@ def core_programs(tier="quick"):
     P.append(_rh_prog(mirror, [_req("rh", "c_absQmk", ["gt"], [10, -90]), far]))       # 10 > abs(rh - -90)
     P.append(_rh_prog(three, [rh90, _req("dist", "abskmQ_c", ["le"], [2 * Q, 4 * Q])]))   # abs(4 - d) <= 2
     P.append(_rh_prog(three, [rh90, _req("dist", "c_abskpQ", ["ge"], [6 * Q, -4 * Q])]))  # 6 >= abs(-4 + d)
+    # headings = field heading + bounded random deviation crossing the +-180 degree cut: a 175 degree
+    # cell with +-10 degrees (ego in it sees the 90 degree cell at -85 +- 10), both objects
+    # deviating around -175 / 170, a required interval that ends at the cut
+    w3 = [[pbox(0, 0, 2, 2), 175], [pbox(4, 0, 6, 2), 90], [pbox(8, 0, 10, 2), 0]]
+    near = _req("dist", "Qc", ["le"], [7 * Q])
+
+    def dev_prog(field, reqs, de, do):
+        cells_ = [list(f[0]) for f in field]
+        return dict(id=0, fam="rh", cont=[], field=field, reqs=reqs,
+                    objs=[_obj(base=cells_, facing=True, devspec=de),
+                          _obj(base=[list(c) for c in cells_], facing=True, devspec=do)])
+
+    P.append(dev_prog(w3, [_req("rh", "cQc", ["le", "le"], [-100, -70]), near], ("range", -10, 10), None))
+    w4 = [[pbox(0, 0, 2, 2), -175], [pbox(4, 0, 6, 2), 85], [pbox(8, 0, 10, 2), 170]]
+    P.append(dev_prog(w4, [_req("rh", "absQmk_c", ["le"], [15, -95]), near], ("uniform", [-10, 10]), ("range", 0, 20)))
+    w5 = [[pbox(0, 0, 2, 2), 0], [pbox(4, 0, 6, 2), 175], [pbox(8, 0, 10, 2), 90]]
+    P.append(dev_prog(w5, [_req("rh", "cQ", ["le"], [165]), near], None, ("range", -10, 10)))
+    # visibility of a tall object standing ON the ground seen from above its top with a small view
+    # distance (the base point is farther from the view region than the object's radius), the same
+    # `visible from ego` with the base lifted, and an observer below a hanging object
+    up = _obj(fixed=True, pos=[0, 0, 25], vd=6)
+    P.append(dict(id=0, fam="vis", cont=[], field=[], reqs=[], nscenes_cap=4,
+                  objs=[up, _obj(base=[pbox(-6, -6, 6, 6)], mode="on", sizes=[[Q, Q, 6 * Q]], vis="requireVisible")]))
+    up2 = _obj(fixed=True, pos=[Q, 0, 22], vd=4)
+    P.append(dict(id=0, fam="vis", cont=[pbox(-6, -6, 6, 6)], field=[], reqs=[], nscenes_cap=4,
+                  objs=[up2, _obj(base=[pbox(-5, -5, 5, 5)], mode="on", lift=Q, sizes=[[Q, Q, 4 * Q]], vis="visibleFrom")]))
+    down = _obj(fixed=True, pos=[0, Q, -19], vd=6)
+    P.append(dict(id=0, fam="vis", cont=[], field=[], reqs=[], nscenes_cap=4,
+                  objs=[down, _obj(base=[pbox(-5, -5, 5, 5)], mode="on", lift=-4 * Q, sizes=[[2 * Q, 2 * Q, 4 * Q]], vis="visible")]))
     # visibility from a fixed ego
     ego = _obj(fixed=True, pos=[0, 0, 0], vd=2 * Q)
     P.append(dict(id=0, fam="vis", cont=[], field=[], reqs=[],
@@ -547,8 +667,8 @@ def core_programs(tier="quick"):
 
 def lattice_programs(tier, seed):
     rnd = random.Random(seed * 7919 + 5)
-    n = dict(cont=4, ori=3, box=1, vis=2, rh_clean=5, rh_trig=6) if tier == "quick" else \
-        dict(cont=60, ori=50, box=8, vis=12, rh_clean=70, rh_trig=45)
+    n = dict(cont=3, ori=3, box=1, vis=1, vis_tall=2, rh_clean=4, rh_dev=2, rh_trig=6) if tier == "quick" else \
+        dict(cont=50, ori=45, box=8, vis=10, vis_tall=25, rh_clean=55, rh_dev=45, rh_trig=40)
     progs = []
 
     def add(p):
@@ -566,6 +686,10 @@ def lattice_programs(tier, seed):
         add(gen_box(rnd, len(progs) + 1))
     for _ in range(n["vis"]):
         add(gen_vis(rnd, len(progs) + 1, tier))
+    for _ in range(n["vis_tall"]):
+        add(gen_vis_tall(rnd, len(progs) + 1))
+    for _ in range(n["rh_dev"]):
+        add(gen_rh_dev(rnd, len(progs) + 1))
     for _ in range(n["rh_clean"]):
         add(gen_rh(rnd, len(progs) + 1, None))
     for i in range(n["rh_trig"]):
